@@ -155,29 +155,40 @@ def impl_obs(case):
     return out
 
 
-_MD = []
+_MD = {}
+TRACK_LAYOUTS = ["tracklet-only", "tracklet,lineage", "lineage,tracklet"]
 
 
 def _memory_geff(case):
+    """in-memory geff holding the case; `track_layout` chooses what track_node_props declares and in which KEY
+    ORDER (a lineage property - not validated here, only ValidationConfig(tracklet=True) is requested - may be
+    declared before or after the tracklet property; the order of the property dicts follows)"""
     import geff_spec
 
-    if not _MD:   # validate_data only reads the metadata: one object per process
-        _MD.append(geff_spec.GeffMetadata(
-            geff_version="1.0.0", directed=True,
-            node_props_metadata={"trk": geff_spec.PropMetadata(identifier="trk", dtype="int64")},
-            edge_props_metadata={}, track_node_props={"tracklet": "trk"},
-        ))
-    md = _MD[0]
     from harness.corr.C12 import variant_array
 
+    layout = case.get("track_layout", "tracklet-only")
+    if layout not in _MD:   # validate_data only reads the metadata: one object per layout and process
+        pm = lambda k: geff_spec.PropMetadata(identifier=k, dtype="int64")  # noqa: E731
+        tnp = {"tracklet-only": {"tracklet": "trk"}, "tracklet,lineage": {"tracklet": "trk", "lineage": "lin"},
+               "lineage,tracklet": {"lineage": "lin", "tracklet": "trk"}}[layout]
+        _MD[layout] = geff_spec.GeffMetadata(
+            geff_version="1.0.0", directed=True, node_props_metadata={p: pm(p) for p in tnp.values()},
+            edge_props_metadata={}, track_node_props=dict(tnp))
+    md = _MD[layout]
     miss = case.get("missing")
     dt = np.dtype(case.get("dtype", "int64"))
     v = case.get("variant", "plain")
+    props = {}
+    for p in md.track_node_props.values():     # same insertion order as the metadata
+        if p == "trk":
+            props[p] = {"values": variant_array(np.asarray(case["labels"], dtype=dt), v),
+                        "missing": None if miss is None else variant_array(np.asarray(miss, dtype=bool), v)}
+        else:                                   # lineage ids: junk (all equal), never requested
+            props[p] = {"values": np.zeros(len(case["nodes"]), dtype=np.int64), "missing": None}
     return {"metadata": md, "node_ids": variant_array(np.asarray(case["nodes"], dtype=dt), v),
             "edge_ids": variant_array(np.asarray(case["edges"], dtype=dt).reshape(-1, 2), v),
-            "node_props": {"trk": {"values": variant_array(np.asarray(case["labels"], dtype=dt), v),
-                                   "missing": None if miss is None else variant_array(np.asarray(miss, dtype=bool), v)}},
-            "edge_props": {}}
+            "node_props": props, "edge_props": {}}
 
 
 def impl_via_validate_data(case):
@@ -209,16 +220,23 @@ def impl_via_store(case):
     from geff.core_io._base_read import read_to_memory
     from geff.validate.data import ValidationConfig
 
+    import geff
+
     g = _memory_geff(case)
     store = zarr.storage.MemoryStore()
-    write_arrays(store, g["node_ids"], g["node_props"], g["edge_ids"], {}, g["metadata"])
-    try:
-        read_to_memory(store, data_validation=ValidationConfig(tracklet=True))
-        return "ok"
-    except ValueError:
-        return "ValueError"
-    except Exception as ex:  # noqa: BLE001
-        return type(ex).__name__
+    write_arrays(store, g["node_ids"], g["node_props"], g["edge_ids"], {}, g["metadata"],
+                 zarr_format=case.get("zarr_format", 2))
+    res = []
+    for fn in (lambda: read_to_memory(store, data_validation=ValidationConfig(tracklet=True)),
+               lambda: geff.read(store, data_validation=ValidationConfig(tracklet=True), backend="networkx")):
+        try:
+            fn()
+            res.append("ok")
+        except ValueError:
+            res.append("ValueError")
+        except Exception as ex:  # noqa: BLE001
+            res.append(type(ex).__name__)
+    return res[0] if res[0] == res[1] else f"read_to_memory:{res[0]}/geff.read:{res[1]}"
 
 
 # ----------------------------------------------------------------- validate_data under every config enabling tracklet
@@ -278,20 +296,24 @@ def impl_config_grid(item):
 
     case, lin = item
     n = len(case["nodes"])
+    order = case.get("track_layout", "tracklet,lineage")
+    tnp = {"lineage": "lin", "tracklet": "trk"} if order == "lineage,tracklet" else {"tracklet": "trk", "lineage": "lin"}
+    names = ["cov", "r", "lin", "trk"] if order == "lineage,tracklet" else ["trk", "lin", "r", "cov"]
     pm = lambda k, d: geff_spec.PropMetadata(identifier=k, dtype=d)  # noqa: E731
     md = geff_spec.GeffMetadata(
         geff_version="1.0.0", directed=True,
         axes=[geff_spec.Axis(name="t", type="time"), geff_spec.Axis(name="y", type="space"), geff_spec.Axis(name="x", type="space")],
-        node_props_metadata={"trk": pm("trk", "int64"), "lin": pm("lin", "int64"), "r": pm("r", "float64"), "cov": pm("cov", "float64")},
-        edge_props_metadata={}, track_node_props={"tracklet": "trk", "lineage": "lin"}, sphere="r", ellipsoid="cov")
+        node_props_metadata={k: pm(k, "int64" if k in ("trk", "lin") else "float64") for k in names},
+        edge_props_metadata={}, track_node_props=tnp, sphere="r", ellipsoid="cov")
     out = []
     for bits in range(16):
         g = {"metadata": md, "node_ids": np.asarray(case["nodes"], dtype=np.int64),
              "edge_ids": np.asarray(case["edges"], dtype=np.int64).reshape(-1, 2),
-             "node_props": {"trk": {"values": np.asarray(case["labels"], dtype=np.int64), "missing": None},
-                            "lin": {"values": np.asarray(lin, dtype=np.int64), "missing": None},
-                            "r": {"values": np.ones(n), "missing": None},
-                            "cov": {"values": np.stack([2.0 * np.eye(2)] * n) if n else np.zeros((0, 2, 2)), "missing": None}},
+             "node_props": {k: {"trk": {"values": np.asarray(case["labels"], dtype=np.int64), "missing": None},
+                                "lin": {"values": np.asarray(lin, dtype=np.int64), "missing": None},
+                                "r": {"values": np.ones(n), "missing": None},
+                                "cov": {"values": np.stack([2.0 * np.eye(2)] * n) if n else np.zeros((0, 2, 2)), "missing": None}}[k]
+                            for k in names},
              "edge_props": {}}
         cfg = ValidationConfig(tracklet=True, graph=bool(bits & 1), sphere=bool(bits & 2), ellipsoid=bool(bits & 4),
                                lineage=bool(bits & 8))
@@ -533,6 +555,9 @@ def judge(ck, c, im, mo):
     if c.get("_edit"):
         tag += ":" + c["_edit"]
     ck.case(c, tag, nontrivial=bool(c["edges"]) or len(set(c["labels"])) > 1)
+    if c.get("track_layout") and (masked or True):
+        lh = ck.extra.setdefault("track_node_props_layouts", {})
+        lh[c["track_layout"]] = lh.get(c["track_layout"], 0) + 1
     if c.get("variant"):
         vh = ck.extra.setdefault("array_variants", {})
         vh[c["variant"]] = vh.get(c["variant"], 0) + 1
@@ -580,7 +605,9 @@ def run(ck: common.Check):
                "every non-empty missing mask x labellings (through validate_data) + sampled DAGs on 5-6 nodes + random "
                "layered forests with divisions/merges up to 40 nodes with the true tracklet labelling and single-edit "
                "corruptions (a quarter with a missing mask) + a sample of the in-domain cases through validate_data under all 16 "
-               "configs that enable tracklet on geffs declaring tracklet AND lineage ids, x {valid, corrupted} lineage labelling; non-trivial = at least one edge or two ids; distinct = "
+               "configs that enable tracklet on geffs declaring tracklet AND lineage ids, x {valid, corrupted} lineage labelling x both KEY "
+               "ORDERS of track_node_props; every case that goes through validate_data / a store rotates over the layouts "
+               "{tracklet only; tracklet,lineage; lineage,tracklet} of track_node_props; non-trivial = at least one edge or two ids; distinct = "
                "distinct canonical JSON")
     corpus_all = list(corpus())
     grid_corpus = [c for c in corpus_all if "lineage_labels" in c]     # regression inputs of the all-configs grid
@@ -616,6 +643,11 @@ def run(ck: common.Check):
     for i, c in enumerate(cases):
         if i % 4 == 1 and c.get("dtype") is None and i >= n_corpus:
             c["variant"] = VARIANTS[1 + (i // 4) % (len(VARIANTS) - 1)]
+    # what track_node_props declares, and in which key order, rotates over the cases (it matters for everything
+    # that goes through validate_data: the masked cases here, and the dispatch / store samples below)
+    for i, c in enumerate(cases):
+        if i >= n_corpus and "track_layout" not in c:
+            c["track_layout"] = TRACK_LAYOUTS[i % 3]
     impl = common.pmap(impl_obs, cases, chunksize=256)
     drv = ck.driver()
     model = drv.ask([to_req(c) for c in cases])
@@ -646,7 +678,7 @@ def run(ck: common.Check):
     from harness.corr.C12 import lineage_oracle
 
     pool = [c for c in cases if c.get("missing") is None and c.get("dtype") is None and c["nodes"] and in_domain(c)]
-    want_n = 400 if ck.quick else 8000
+    want_n = 250 if ck.quick else 5000
     step = max(1, len(pool) // want_n)
     items, meta_items = [], []
     for gc in grid_corpus:
@@ -660,12 +692,13 @@ def run(ck: common.Check):
             if lin is None:
                 continue
             lv, _ = lineage_oracle({"nodes": c["nodes"], "labels": lin, "edges": c["edges"], "missing": None})
-            items.append((c, lin))
-            meta_items.append(lv)
+            for order in ("tracklet,lineage", "lineage,tracklet"):      # KEY ORDER of track_node_props
+                items.append(({**c, "track_layout": order}, lin))
+                meta_items.append(lv)
     grid_hist = {}
     for (c, lin), lv, outs in zip(items, meta_items, common.pmap(impl_config_grid, items, chunksize=16)):
         tv, _ = spec_oracle(c["nodes"], c["labels"], c["edges"])
-        k = f"tracklets-{'valid' if tv else 'invalid'}+lineages-{'valid' if lv else 'invalid'}"
+        k = f"tracklets-{'valid' if tv else 'invalid'}+lineages-{'valid' if lv else 'invalid'}:keys={c.get('track_layout')}"
         grid_hist[k] = grid_hist.get(k, 0) + 16
         judge_config_grid(ck, c, lin, lv, outs)
     ck.extra["validate_data_all_16_configs_with_tracklet"] = grid_hist
